@@ -413,6 +413,9 @@ def run_C10(tier, rnd, st, res):
             if want != got or d.fields.get('startxref') != want.split(',')[-1]:
                 res.corr_diffs.append(dict(call=d.call(), replay=d.replay(), what='PDF object offsets (xref) / startxref',
                                            impl=got + ' startxref=' + str(d.fields.get('startxref')), model=want))
+    # whole documents against the document models (Model/SvgDoc.lean, Model/Tex.lean, Model/VectorDocs.lean)
+    import vecdocs
+    vecdocs.correspond_c10_docs(docs, pool, rnd, tier, st, res)
     res.rule = ('documents written by the real serialisers for symbols of %d sizes (Micro M1 … version 40) x kinds svg/eps/pdf/tex x scale cycling through '
                 '1, 2, 10, 0.5, 0.25, 1.5, 3.3, 7.25 (+ extra values) x border 0..6/None x colour forms (names, #hex, tuples, float tuples, alpha, None) x '
                 'format options; non-trivial = the judge interpreted the whole document and found every module painted as requested; distinct by '
